@@ -36,7 +36,7 @@ TABLE_OF_VIEW_ATTR = {"_id_dict", "_id_attr", "_bi_id_dict", "_bi_id_attr"}
 def run(ctx):
     repo = ctx.repo
     res = Result(PROP)
-    res.rules = ["V-LIVE", "V-REBIND", "V-NOCACHE", "V-ORDER", "V-IDS", "V-DOMAIN", "V-FILTER", "V-FWD", "V-UNION", "V-ZERO", "V-SIDE"]
+    res.rules = ["V-LIVE", "V-REBIND", "V-NOCACHE", "V-ORDER", "V-IDS", "V-DOMAIN", "V-NBR", "V-FILTER", "V-FWD", "V-UNION", "V-ZERO", "V-SIDE"]
     res.explanation = (
         "Structural rules over the view and stat classes and a package-wide who-may-rebind scan (effect analysis): views "
         "alias the live tables, nothing is cached, ordered outputs are tagged with the provenance of their iteration "
@@ -55,6 +55,7 @@ def run(ctx):
     check_filter(repo, res, idview)
     check_ids_owner(repo, res)
     check_selection_domain(repo, res, idview)
+    check_neighbor_threshold(repo, res, idview)
     # V-FWD: the public methods of the view classes read every parameter and forward keywords under their own name
     # (sources/targets are aliases of tail/head; a dropped `e=` or `dtype=` changes what is returned)
     from .c05_edits import check_params
@@ -152,6 +153,73 @@ def check_ids_owner(repo, res):
     if found_owner_writes < 3:
         raise AnalysisError(f"V-IDS: expected the assignments of _ids in IDView.__init__ and from_view, found {found_owner_writes} (extractor does not recognise the code)")
     res.inst("V-IDS", f"{n} bindings of _ids / view constructions examined; only IDView.__init__ and from_view bind _ids", True)
+
+
+def check_neighbor_threshold(repo, res, idview):
+    """V-NBR: `neighbors(idx, s)` are the IDs that share at least s bipartite neighbours with idx.  The threshold s therefore
+    bounds the size of sets taken from the ID table (`_id_dict[...]`: the neighbour set of idx, of a candidate, or their
+    intersection) - it says nothing about how many members a shared bipartite ID has (`_bi_id_dict[...]`: two are enough
+    for it to count).  Every comparison that involves `s` is a size comparison whose set is rooted in `_id_dict`."""
+    m = idview.methods.get("neighbors")
+    if m is None or "s" not in m.all_params:
+        raise AnalysisError("IDView.neighbors(idx, s) not found (anchor vanished)")
+    local = {}
+    for st in ast.walk(m.node):
+        if isinstance(st, ast.Assign) and len(st.targets) == 1 and isinstance(st.targets[0], ast.Name):
+            local.setdefault(st.targets[0].id, []).append(st.value)
+
+    def roots(e, depth=0):
+        """which tables the set expression e is taken from: subset of {'id', 'bi', '?'}"""
+        out = set()
+        if depth > 4:
+            return {"?"}
+        if isinstance(e, ast.Subscript) and isinstance(e.value, ast.Attribute) and e.value.attr in ("_id_dict", "_bi_id_dict"):
+            return {"id" if e.value.attr == "_id_dict" else "bi"}
+        if isinstance(e, ast.Subscript) and isinstance(e.value, ast.Name):
+            return roots(e.value, depth + 1)
+        if isinstance(e, ast.Attribute) and e.attr in ("_id_dict", "_bi_id_dict"):
+            return {"id" if e.attr == "_id_dict" else "bi"}
+        if isinstance(e, ast.Name):
+            ds = local.get(e.id, [])
+            if not ds:
+                return {"?"}
+            for d in ds:
+                out |= roots(d, depth + 1)
+            return out
+        if isinstance(e, ast.BinOp) and isinstance(e.op, (ast.BitAnd, ast.BitOr, ast.Sub)):
+            return roots(e.left, depth + 1) | roots(e.right, depth + 1)
+        if isinstance(e, ast.Call) and isinstance(e.func, ast.Attribute) and e.func.attr in ("intersection", "union", "difference", "copy"):
+            out = roots(e.func.value, depth + 1)
+            for a in e.args:
+                out |= roots(a, depth + 1)
+            return out
+        if isinstance(e, ast.Call) and getattr(e.func, "id", None) in ("set", "frozenset", "list") and e.args:
+            return roots(e.args[0], depth + 1)
+        return {"?"}
+
+    n = 0
+    for c in ast.walk(m.node):
+        if not (isinstance(c, ast.Compare) and any(isinstance(x, ast.Name) and x.id == "s" for x in [c.left] + list(c.comparators))):
+            continue
+        others = [x for x in [c.left] + list(c.comparators) if not (isinstance(x, ast.Name) and x.id == "s")]
+        for o in others:
+            if isinstance(o, ast.Constant):
+                continue  # s == 1 fast path
+            n += 1
+            if isinstance(o, ast.Call) and getattr(o.func, "id", None) == "len" and o.args:
+                r = roots(o.args[0])
+                ok = r <= {"id"}
+                why = f"the size of `{unparse(o.args[0], 40)}`, a set taken from the other table (the members of a shared bipartite ID)" if "bi" in r else f"the size of `{unparse(o.args[0], 40)}`, whose origin the rule cannot see"
+                if "?" in r and "bi" not in r:
+                    raise AnalysisError(f"IDView.neighbors: `{unparse(c, 50)}` compares s with a set of unknown origin (extractor does not recognise the code)")
+            else:
+                ok, why = False, f"`{unparse(o, 40)}`, which is not the size of a set"
+                raise AnalysisError(f"IDView.neighbors: `{unparse(c, 50)}` compares s with something that is not a size (extractor does not recognise the code)")
+            res.inst("V-NBR", f"IDView.neighbors:{c.lineno} `{unparse(c, 50)}` bounds a set of the ID table", ok)
+            if not ok:
+                res.add(mk_finding(PROP, "V-NBR", m, c, f"IDView.neighbors: `{unparse(c, 60)}` compares the threshold s with {why}; a shared neighbour counts towards s however few members it has, so candidates reached only through small shared IDs are dropped and neighbors(idx, s) misses IDs that do share s neighbours", role="threshold"))
+    if n < 1:
+        raise AnalysisError("IDView.neighbors: no comparison with the threshold s found (extractor does not recognise the code)")
 
 
 def check_selection_domain(repo, res, idview):
